@@ -25,11 +25,12 @@ ChainOpts == IF ChainMode = "none" THEN {NoChain}
                        g \in {0, 1, 2}, e \in {1, 2}, p \in {0, 1}} \cup
                   {[on |-> TRUE, goto |-> 0, e |-> 2, tag |-> 9, prop |-> 0, double |-> TRUE, always |-> FALSE, cnd |-> 1]}
 AnyT == IF ChainMode = "none" THEN T ELSE {0 - 1, 2}
-Init == /\ \E tr \in [1..M -> [1..N -> T]], an \in [1..M -> AnyT], c1 \in ChainOpts, c2 \in ChainOpts :
+Init == /\ \E tr \in [1..M -> [1..N -> T]], an \in [1..M -> AnyT], c1 \in ChainOpts, c2 \in ChainOpts, h2 \in BOOLEAN :
              cfg = [n |-> N, m |-> M, trans |-> tr, any |-> an,
                     cond |-> <<3, 1>>, enter |-> <<3, 1>>, exit |-> <<1, 3>>,
                     on_enter |-> <<TRUE, TRUE>>, on_exit |-> <<TRUE, TRUE>>,
-                    on_notrans |-> TRUE, on_output |-> TRUE, chain |-> <<c1, c2>>, xchain |-> <<FALSE, TRUE>>]
+                    on_notrans |-> TRUE, on_output |-> TRUE, chain |-> <<c1, c2>>, xchain |-> <<FALSE, TRUE>>,
+                    hold |-> <<FALSE, h2>>]
         /\ st = 0 /\ out = 0
         /\ res = F!Result("none", 0, 0, <<>>)
 Data == [tag : {5}, chain : {0, 1}, cond : {0, 1}, condf : IF ChainMode = "none" THEN {0, 1} ELSE {1}, xc : {0, 1}]
@@ -42,9 +43,9 @@ Send == \E ev \in Events :
            /\ st' = res'.st /\ out' = res'.out /\ UNCHANGED cfg
 Spec == Init /\ [][Send]_vars
 RejectChangesNothing == [][F!RejectChangesNothing(st, out, res')]_vars
-IntermediateInvisible == F!IntermediateInvisible(res)
+IntermediateInvisible == [][F!IntermediateInvisible(cfg, out, res')]_vars
 DataOfCausingEvent == F!DataOfCausingEvent(res)
 OrderOfActions == F!OrderOfActions(res)
 ReturnIffAccepted == res.ret \in {"none", "true", "false", "unknown", "error"}
-StateValid == st \in 0..N /\ (res.ret # "error" => out = st)
+StateValid == st \in 0..N /\ (res.ret # "error" => (out = st \/ (st # 0 /\ cfg.hold[st])))
 =============================================================================
